@@ -34,13 +34,19 @@ class BoomBase(BaseException):
     pass
 
 
+RAISED = []
+
+
 def boom(kind, token):
-    if kind == "Exception":
-        raise Boom(token)
-    if kind == "KeyboardInterrupt":
-        raise KeyboardInterrupt(token)
-    if kind == "SystemExit":
-        raise SystemExit(token)
-    if kind == "GeneratorExit":
-        raise GeneratorExit(token)
-    raise BoomBase(token)
+    if kind == "Boom":
+        e = Boom(token)
+    elif kind == "KeyboardInterrupt":
+        e = KeyboardInterrupt(token)
+    elif kind == "SystemExit":
+        e = SystemExit(token)
+    elif kind == "GeneratorExit":
+        e = GeneratorExit(token)
+    else:
+        e = BoomBase(token)
+    RAISED.append(e)
+    raise e
